@@ -232,7 +232,11 @@ Proof.
   destruct pb as [|b rb]; [destruct ra; discriminate|].
   destruct ra as [|a2 ra']; [apply disjoint_b_sound; destruct rb; exact H|].
   destruct rb as [|b2 rb']; [apply disjoint_b_sound; exact H|].
-  cbn [compat_b] in H. cbn [compat]. destruct (a =? b); [apply IH; exact H|exact I].
+  change (compat_b (a :: a2 :: ra') sa (b :: b2 :: rb') sb)
+    with (if a =? b then compat_b (a2 :: ra') sa (b2 :: rb') sb else true) in H.
+  change (compat (a :: a2 :: ra') sa (b :: b2 :: rb') sb)
+    with (if a =? b then compat (a2 :: ra') sa (b2 :: rb') sb else True).
+  destruct (a =? b); [apply IH; exact H|exact I].
 Qed.
 
 Lemma props_commute_b_sound props : props_commute_b props = true -> props_commute props.
